@@ -222,7 +222,11 @@ def _iterates_all_children(f, sub, tp):
             iters.append((n.target, n.iter))
         elif isinstance(n, (ast.ListComp, ast.SetComp, ast.GeneratorExp, ast.DictComp)):
             for g in n.generators:
-                if not g.ifs:
+                # a filter on the RESULT of the recursive call (`if rec(child) is not None`) is evaluated for every entry: the call
+                # is still made for all children
+                if not g.ifs or all(any(isinstance(c, ast.Call) and isinstance(c.func, ast.Attribute) and c.func.attr == f.name
+                                        and any(src(a) == src(sub) for a in list(c.args) + [k.value for k in c.keywords])
+                                        for c in ast.walk(t)) for t in g.ifs):
                     iters.append((g.target, g.iter))
         for target, it in iters:
             s = src(it)
@@ -542,6 +546,12 @@ def r5_selection(ctx):
         want_b = {f'cls._validate_exclude({exc_p})', f'cls._validate_exclude(exclude={exc_p})'}
 
         def is_closure(X, want):
+            if isinstance(X, ast.Name) and any(isinstance(n_, ast.Call) and isinstance(n_.func, ast.Attribute) and F.is_name(n_.func.value, X.id)
+                                               and n_.func.attr in ('add', 'update', 'discard', 'remove', 'difference_update', 'intersection_update')
+                                               for n_ in walk_local(valid.node)):
+                # the operand is a set filled in place by a walk over the hierarchy (another algorithm for the same closure):
+                # unknown, not wrong
+                raise AnalysisError(f'{at}: the operand `{X.id}` of valid is filled in place (a work-list walk): the set-algebra rule does not follow it')
             c, recognised = _closure_of(X, valid)
             if c in want:
                 return True, c
@@ -642,11 +652,18 @@ def r5_selection(ctx):
     c2 = mt.params[1]
     okd = len(rets) == 1 and F.same(ctx, mt, rets[0][1],
                                     f'cls._match({c2}, include=cls._validate_include(include), exclude=cls._validate_exclude(exclude))')
-    if not okd and len(rets) == 1 and isinstance(rets[0][1], ast.Call) and src(rets[0][1].func) == 'cls._match':
-        b_m = F.bind_args(rets[0][1], m, True)
+    raw_rets = [n.value for n in walk_local(mt.node) if isinstance(n, ast.Return) and n.value is not None]
+    raw_call = raw_rets[0] if len(raw_rets) == 1 and isinstance(raw_rets[0], ast.Call) and src(raw_rets[0].func) == 'cls._match' else None
+    if not okd and raw_call is not None:
+        b_m = F.bind_args(raw_call, m, True)
         if F.is_name(b_m.get(m.params[1]), c2) and {src(b_m.get('include')), src(b_m.get('exclude'))} <= {'include', 'exclude'}:
-            # still a delegation with the same category; where the selection is normalised moved (valid() does it as well)
-            raise AnalysisError(f'{mt.loc}: match hands include/exclude to _match unnormalised; whether _match / valid normalise them is not followed')
+            # still a delegation with the same category; the selection is normalised by valid() itself (rule valid-include-closure /
+            # valid-exclude-closure: valid computes closure(_validate_include(include)) - closure(_validate_exclude(exclude))), and
+            # _match hands exactly these two arguments to valid (rule match-shape): the second normalisation was a no-op
+            if src(b_m.get('include')) == 'include' and src(b_m.get('exclude')) == 'exclude' and okm:
+                okd = True
+            else:
+                raise AnalysisError(f'{mt.loc}: match hands include/exclude to _match unnormalised; whether _match / valid normalise them is not followed')
     ctx.check(okd, 'R5', mt.loc, mt.qualname, 'match-delegation',
               'match normalises include/exclude and delegates to _match with the same category')
     # is_child reflexive and delegating with unswapped arguments
